@@ -436,4 +436,6 @@ def cg_git(req):
         shutil.rmtree(base, ignore_errors=True)
 
 
-HANDLERS = {"scenario": scenario, "graph_lcas": graph_lcas, "cg_codec": cg_codec, "cg_git": cg_git}
+from impl_C14_peeled import peeled_session
+
+HANDLERS = {"scenario": scenario, "graph_lcas": graph_lcas, "cg_codec": cg_codec, "cg_git": cg_git, "peeled_session": peeled_session}
